@@ -3,10 +3,16 @@ symbolic arguments of a session op against the real objects, checks admissibilit
 the op, canonicalises the resulting workspace.
 
 Canonical dataset = {'temporal', 'meas' (nested floats; flat: obs x chan), 'desc': {k: lbl},
-'obs'/'chan'/'time': {k: [lbl]}}; lbl = int | float | str (np scalar types erased, integral
-floats -> int).
+'obs'/'chan'/'time': {k: [lbl]}}; lbl = int | float | str | None (np scalar types erased; a
+float-typed number stays a float even when integral — the dtype decides what `from_df` reads
+as a channel; None = missing value, i.e. `None` or `NaN`).
+
+Labels in a case (JSON): int, str, {"f": "p/q"} = float-typed number, null = missing (built as
+`None` in a column that holds strings, as `NaN` otherwise).
 """
+import math
 import warnings
+from fractions import Fraction
 import numpy as np
 from rsatoolbox.data.dataset import Dataset, TemporalDataset, merge_subsets
 from rsatoolbox.data.ops import merge_datasets
@@ -23,10 +29,70 @@ def clbl(x):
     if isinstance(x, (int, np.integer)):
         return int(x)
     if isinstance(x, (float, np.floating)):
-        return int(x) if float(x).is_integer() else float(x)
+        return None if math.isnan(float(x)) else float(x)
+    if x is None:
+        return None
     if isinstance(x, np.ndarray) and x.ndim == 0:
         return clbl(x.item())
     return repr(x)
+
+
+def raw_lbl(v, in_str_col=False):
+    """case label -> the Python value handed to the library"""
+    if isinstance(v, dict):
+        return float(Fraction(v['f']))
+    if v is None:
+        return None if in_str_col else float('nan')
+    return v
+
+
+def raw_col(vals, miss=None):
+    has_str = any(isinstance(v, str) for v in vals) if miss is None else miss == 'none'
+    return [raw_lbl(v, has_str) for v in vals]
+
+
+def col_kind(col):
+    """numpy dtype kind of a canonical column: 1 int, 2 float (numbers / missing, at least one
+    float or missing), 3 str, 4 mixed (numpy would coerce values on concatenation)"""
+    if all(isinstance(x, int) for x in col):
+        return 1
+    if col and all(x is None or isinstance(x, (int, float)) for x in col) \
+            and any(x is None or isinstance(x, float) for x in col):
+        return 2
+    if all(isinstance(x, str) for x in col):
+        return 3
+    return 4
+
+
+def pure_col(col):
+    return all(isinstance(x, int) for x in col) or all(isinstance(x, str) for x in col) \
+        or all(x is None or isinstance(x, float) for x in col)
+
+
+def ds_clean(ds):
+    """every observation descriptor column has one dtype (so every subset of it has the same
+    one) and no dataset descriptor is missing"""
+    return all(pure_col(ccol(v)) for v in ds.obs_descriptors.values()) and \
+        all(clbl(v) is not None for v in ds.descriptors.values())
+
+
+def merge_clean(ws):
+    """beyond the documented precondition of merge_datasets: concatenating the parts' columns
+    must not make numpy coerce values"""
+    cs = [canon(d) for d in ws]
+    for k in set.intersection(*[set(c['obs']) for c in cs]):
+        kinds = [col_kind(c['obs'][k]) for c in cs]
+        if 4 in kinds or len(set(kinds)) != 1:
+            return False
+    for k in set.intersection(*[set(c['desc']) for c in cs]):
+        vals = [c['desc'][k] for c in cs]
+        if any(v is None for v in vals) or len({col_kind([v]) for v in vals}) != 1:
+            return False
+    return True
+
+
+def has_missing(col):
+    return any(x is None for x in ccol(col))
 
 
 def ccol(v):
@@ -61,9 +127,17 @@ def build(init):
             if isinstance(vals, str):
                 out[k] = vals
             else:
-                out[k] = np.array(vals) if kinds.get(f'{axis}:{k}', 'list') == 'array' else list(vals)
+                raw = raw_col(vals, kinds.get(f'miss:{axis}:{k}'))
+                kind = kinds.get(f'{axis}:{k}', 'list')
+                if kind == 'array':
+                    # a string column with missing entries must be an object array (numpy would
+                    # otherwise turn None into the string 'None')
+                    obj = any(v is None for v in raw)
+                    out[k] = np.array(raw, dtype=object) if obj else np.array(raw)
+                else:
+                    out[k] = list(raw)
         return out
-    desc = None if init['desc'] is None else {k: v for k, v in init['desc']}
+    desc = None if init['desc'] is None else {k: raw_lbl(v) for k, v in init['desc']}
     if init['temporal']:
         return TemporalDataset(meas, descriptors=desc, obs_descriptors=tbl('obs'),
                                channel_descriptors=tbl('chan'), time_descriptors=tbl('time'))
@@ -126,9 +200,13 @@ def non_empty(ds):
     return all(d >= 1 for d in dims(ds))
 
 
+def _rank(a):
+    return 2 if a is None else 1 if isinstance(a, str) else 0
+
+
 def lbl_le(a, b):
-    if isinstance(a, str) != isinstance(b, str):
-        return not isinstance(a, str)
+    if _rank(a) != _rank(b) or a is None:
+        return _rank(a) <= _rank(b)
     return a <= b
 
 
@@ -177,8 +255,16 @@ def resolve(ws, op):
     if name == 'copy':
         def call():
             c = d.copy()
-            # a copy compares equal (`__eq__`, `desc_eq`) and owns its measurements
-            if not (c == d) or not (d == c):
+            # a copy compares equal (`__eq__`, `desc_eq`) and owns its measurements (NaN != NaN:
+            # the equality test is skipped when a descriptor holds a NaN)
+            tables = [d.descriptors, d.obs_descriptors, d.channel_descriptors] + \
+                ([d.time_descriptors] if is_temporal(d) else [])
+            nan_free = not any(isinstance(x, (float, np.floating)) and math.isnan(float(x))
+                               for t in tables for v in t.values()
+                               for x in (list(v) if isinstance(v, (list, tuple, np.ndarray)) else [v]))
+            if canon(c) != canon(d):
+                raise AssertionError('copy() differs from the original')
+            if nan_free and (not (c == d) or not (d == c)):
                 raise AssertionError('copy() != original')
             # ... and differs from other objects, from a dataset of the other class and from a
             # dataset with another descriptor set
@@ -202,15 +288,24 @@ def resolve(ws, op):
                     return ('rejected', None)
                 raise AssertionError('merge_datasets accepted datasets of different classes')
             return None, True, call
+        if all(non_empty(x) for x in ws) and len({dims(x)[1:] for x in ws}) > 1:
+            def call():
+                try:
+                    merge_datasets(list(ws))
+                except ValueError:
+                    return ('rejected', None)
+                raise AssertionError('merge_datasets accepted datasets of different shapes')
+            return None, True, call
+        adm = merge_clean(ws) and merge_admissible(ws)
         if op.get('alias'):
-            return None, merge_admissible(ws), lambda: ('state', [merge_subsets(list(ws))])
-        return None, merge_admissible(ws), lambda: ('state', [merge_datasets(list(ws))])
+            return None, adm, lambda: ('state', [merge_subsets(list(ws))])
+        return None, adm, lambda: ('state', [merge_datasets(list(ws))])
     if name in ('split_obs', 'split_channel', 'split_time'):
         axis = {'split_obs': 'obs', 'split_channel': 'chan', 'split_time': 'time'}[name]
         by = pick_key(table(d, axis), k)
         if by is None:
             return A(), False, None
-        adm = ok and (temporal or name != 'split_time')
+        adm = ok and (temporal or name != 'split_time') and not has_missing(table(d, axis)[by])
         return A(by=by), adm, lambda: repl(getattr(d, name)(by))
     if name in ('subset_obs', 'subset_channel'):
         tb = table(d, 'obs' if name == 'subset_obs' else 'chan')
@@ -221,12 +316,13 @@ def resolve(ws, op):
         if op.get('absent'):
             vals = raw = [absent_val(col)]
         else:
-            vals = [v for v in (pick_val(col, p) for p in op.get('vals', [])) if v is not None]
-            raw = [v for v in (pick_raw(col, p) for p in op.get('vals', [])) if v is not None]
+            n_col = len(list(col))
+            vals = [pick_val(col, p) for p in op.get('vals', [])] if n_col else []
+            raw = [pick_raw(col, p) for p in op.get('vals', [])] if n_col else []
         scalar = bool(op.get('scalar'))
         if scalar:
             vals, raw = vals[:1], raw[:1]
-        adm = ok and not (scalar and not vals)
+        adm = ok and not (scalar and not vals) and not has_missing(col)
         arg = raw[0] if scalar and raw else list(raw)
         return A(by=by, vals=vals, scalar=scalar), adm, lambda: repl([getattr(d, name)(by, arg)])
     if name == 'subset_time':
@@ -239,10 +335,20 @@ def resolve(ws, op):
         else:
             a, b = pick_val(col, op.get('lo', 0)), pick_val(col, op.get('hi', 0))
             ra, rb = pick_raw(col, op.get('lo', 0)), pick_raw(col, op.get('hi', 0))
-            if a is None or b is None:
+            if not len(list(col)):
                 a = b = ra = rb = absent_val(col)
             (lo, rlo), (hi, rhi) = ((a, ra), (b, rb)) if lbl_le(a, b) else ((b, rb), (a, ra))
-        return A(by=by, lo=lo, hi=hi), ok and temporal, lambda: repl([d.subset_time(by, rlo, rhi)])
+
+        def shift(x, raw, k):
+            # a bound strictly between / outside the column's values: value -/+ 1/2 (float)
+            if isinstance(x, str) or x is None or k not in (1, 2):
+                return x, raw
+            y = float(x) + (-0.5 if k == 1 else 0.5)
+            return y, y
+        lo, rlo = shift(lo, rlo, op.get('lo_off', 0))
+        hi, rhi = shift(hi, rhi, op.get('hi_off', 0))
+        return A(by=by, lo=lo, hi=hi), ok and temporal and not has_missing(col), \
+            lambda: repl([d.subset_time(by, rlo, rhi)])
     if name == 'sort_by':
         by = pick_key(table(d, 'obs'), k)
         if by is None:
@@ -252,38 +358,50 @@ def resolve(ws, op):
             c = d.copy()      # sort_by works in place; keep the workspace value-semantic
             c.sort_by(by)
             return repl([c])
-        return A(by=by), ok, call
+        return A(by=by), ok and not has_missing(d.obs_descriptors[by]), call
     if name == 'odd_even':
         by = pick_key(table(d, 'obs'), k)
         if by is None:
             return A(), False, None
-        return A(by=by), ok and n_groups(d, by) >= 2, lambda: repl(d.odd_even_split(by))
+        if not (ok and not has_missing(d.obs_descriptors[by]) and ds_clean(d)):
+            return A(by=by), False, None
+        if n_groups(d, by) < 2:
+            # one group: the second list is empty and merge_datasets([]) has no dataset to
+            # return -- the call must not yield a result
+            return A(by=by), True, lambda: must_reject(lambda: d.odd_even_split(by), 'odd_even_split')
+        return A(by=by), True, lambda: repl(d.odd_even_split(by))
     if name == 'nested_odd_even':
         l1, l2 = pick_key(table(d, 'obs'), k), pick_key(table(d, 'obs'), op.get('k2', 0))
         if l1 is None or l2 is None:
             return A(), False, None
-        fine = False
-        if ok:
-            c1, c2 = ccol(d.obs_descriptors[l1]), ccol(d.obs_descriptors[l2])
-            fine = all(len(uniq_first([y for x, y in zip(c1, c2) if x == u])) >= 2
-                       for u in uniq_first(c1))
-        return A(l1=l1, l2=l2), ok and fine, lambda: repl(d.nested_odd_even_split(l1, l2))
+        if not (ok and not has_missing(d.obs_descriptors[l1]) and not has_missing(d.obs_descriptors[l2])
+                and ds_clean(d)):
+            return A(l1=l1, l2=l2), False, None
+        c1, c2 = ccol(d.obs_descriptors[l1]), ccol(d.obs_descriptors[l2])
+        fine = all(len(uniq_first([y for x, y in zip(c1, c2) if x == u])) >= 2
+                   for u in uniq_first(c1))
+        if not fine:
+            return A(l1=l1, l2=l2), True, \
+                lambda: must_reject(lambda: d.nested_odd_even_split(l1, l2), 'nested_odd_even_split')
+        return A(l1=l1, l2=l2), True, lambda: repl(d.nested_odd_even_split(l1, l2))
     if name == 'bin_time':
         by = pick_key(table(d, 'time'), k)
         if by is None:
             return A(), False, None
         col = table(d, 'time')[by]
-        bins = [[v for v in (pick_val(col, p) for p in b) if v is not None] for b in op.get('bins', [])]
+        bins = [[pick_val(col, p) for p in b] if len(list(col)) else [] for b in op.get('bins', [])]
         adm = (ok and temporal and all(isinstance(x, int) for x in ccol(col))
                and bool(bins) and all(bins))
+        bins = [[int(x) for x in b] for b in bins] if adm else bins
         return A(by=by, bins=bins), adm, lambda: repl([d.bin_time(by, [np.array(b) for b in bins])])
     if name == 'time_as_observations':
         by = pick_key(table(d, 'time'), k)
         if by is None:
             return A(), False, None
+        adm = ok and temporal and not has_missing(table(d, 'time')[by])
         if op.get('alias'):
-            return A(by=by), ok and temporal, lambda: repl([d.convert_to_dataset(by)])
-        return A(by=by), ok and temporal, lambda: repl([d.time_as_observations(by)])
+            return A(by=by), adm, lambda: repl([d.convert_to_dataset(by)])
+        return A(by=by), adm, lambda: repl([d.time_as_observations(by)])
     if name == 'time_as_channels':
         return A(), ok and temporal, lambda: repl([d.time_as_channels()])
     if name in ('df', 'df_default'):
@@ -291,13 +409,29 @@ def resolve(ws, op):
         if key is None:
             return A(), False, None
         names = ccol(d.channel_descriptors[key])
-        adm = ok and not temporal and len(set(map(repr, names))) == len(names)
-        if name == 'df_default':
-            # from_df finds the channels by dtype: representable only when no descriptor holds
-            # non-integer numbers ("float columns are interpreted as channels")
-            labels = [x for v in d.obs_descriptors.values() for x in ccol(v)] + \
-                [clbl(v) for v in d.descriptors.values()]
-            adm = adm and all(isinstance(x, (int, str)) for x in labels)
+        adm = ok and not temporal
+        if adm:
+            # the representable class, computed without the code under test: distinct channel
+            # names, none of them equal to a descriptor key (to_df's `df[dname] = dval` would
+            # overwrite that measurement column), and -- when from_df has to find the channels by
+            # dtype -- pandas gives no descriptor column a float dtype (probe frame built here)
+            every = {**d.obs_descriptors, **d.descriptors}
+            adm = len(set(map(repr, names))) == len(names) and \
+                not any(isinstance(x, str) and x in every for x in names)
+            if adm and name == 'df_default':
+                from pandas import DataFrame
+                probe = DataFrame(index=range(dims(d)[0]))
+                with warnings.catch_warnings():
+                    warnings.simplefilter('ignore')
+                    for dname, dval in every.items():
+                        probe[dname] = dval
+                adm = not [c for (c, t) in probe.dtypes.items() if 'float' in str(t)]
+                # the model does not tell `None` from `NaN`: a column holding nothing but `None`
+                # (object dtype for pandas) is left out
+                allnone = [v for v in [list(x) for x in d.obs_descriptors.values()] +
+                           [[x] for x in d.descriptors.values()]
+                           if len(v) and all(x is None for x in v)]
+                adm = adm and not allnone
 
         def call():
             df = d.to_df(key)
@@ -321,7 +455,7 @@ def resolve(ws, op):
             avg, uniq, n = average_dataset_by(d, by)
             return ('query', {'avg': np.asarray(avg, dtype=float).tolist(), 'uniq': ccol(uniq),
                               'n': [int(x) for x in n]})
-        return A(by=by), ok and not temporal, call
+        return A(by=by), ok and not temporal and not has_missing(d.obs_descriptors[by]), call
     if name == 'tensor':
         by = pick_key(table(d, 'obs'), k)
         if by is None:
@@ -332,8 +466,16 @@ def resolve(ws, op):
         def call():
             t, uniq = d.get_measurements_tensor(by)
             return ('query', {'tensor': np.asarray(t, dtype=float).tolist(), 'uniq': ccol(uniq)})
-        return A(by=by), ok and not temporal and len(sizes) == 1, call
+        return A(by=by), ok and not temporal and len(sizes) == 1 and not has_missing(d.obs_descriptors[by]), call
     raise ValueError(f'unknown session op {name}')
+
+
+def must_reject(f, what):
+    try:
+        f()
+    except Exception:  # noqa: BLE001  (which exception is not the property's business)
+        return ('rejected', None)
+    raise AssertionError(f'{what} returned a result for a single group')
 
 
 def exc_name(exc):
